@@ -815,10 +815,8 @@ class MementoFunctionHashRule(HashRule):
                 return hashlib.sha256(explicit_version.encode("utf-8")).hexdigest()[0:16]
             return memento_fn.code_hash
 
-        rules = [self] + [
-            r for r in self.alternates if r.memento_fn is not self.memento_fn
-        ]
-        if len(rules) == 1:
+        rules = [self] + self.alternates
+        if all(r.memento_fn is self.memento_fn for r in rules):
             return hash_of(self.memento_fn)
         # Several memento function objects share this rule's qualified name (the function and
         # a modifier clone of it kept under another name): all of them count, each with the
@@ -1051,8 +1049,8 @@ class NonMementoFunctionHashRule(HashRule):
 
     def compute_hash(self) -> Optional[str]:
         own_hash = fn_code_hash(self.src_fn)
-        rules = [self] + [r for r in self.alternates if r.src_fn is not self.src_fn]
-        if len(rules) == 1:
+        rules = [self] + self.alternates
+        if all(r.src_fn is self.src_fn for r in rules):
             return own_hash
         # Several functions share this rule's qualified name: all of them count, each with
         # the symbol it is reached by, in an order that does not depend on which was met first
